@@ -942,6 +942,7 @@ int vnacal_save(vnacal_t *vcp, const char *pathname)
     if (fclose(fp) == -1) {
 	_vnacal_error(vcp, VNAERR_SYSTEM, "fclose: %s: %s",
 		vcp->vc_filename, strerror(errno));
+	fp = NULL;
 	goto error;
     }
     return 0;
